@@ -44,6 +44,26 @@ def python_built():
     return Tensor.from_dok({(0,): 1.0}, dimensions=(4,), format="s")
 
 
+_TM = {}
+
+
+def via_tensor_method(text, fmt, args):
+    """the same evaluation through the lower-level public API: a hand-built Problem whose format table lists the
+    inputs BEFORE the target (parameter order of the kernel), compiled once with TensorMethod"""
+    from tensora.compile import TensorMethod
+    from tensora.expression import parse_assignment
+    from tensora.format import parse_format
+    from tensora.problem import Problem
+
+    key = (text, fmt)
+    if key not in _TM:
+        a = parse_assignment(text).unwrap()
+        fmts = {n: t.format for n, t in args.items()}
+        fmts[a.target.name] = parse_format(fmt).unwrap()
+        _TM[key] = TensorMethod(Problem(a, fmts))
+    return _TM[key](**args)
+
+
 def addresses(t):
     """every non-NULL kernel-allocated array of the result, in level order: pos, crd per compressed level, then vals"""
     ct = t.cffi_tensor
@@ -65,6 +85,7 @@ def run_history(ops):
     gc.collect()
     lib.verif_reset()
     names = {}
+    n_made = [0]
     watch = []  # model array id -> interposer index
     freed_seen = set()
     per_step = []
@@ -75,7 +96,8 @@ def run_history(ops):
         args = mk()
         if src is not None:
             args = {"b": src}
-        t = evaluate(text, fmt, **args)
+        n_made[0] += 1
+        t = evaluate(text, fmt, **args) if n_made[0] % 2 else via_tensor_method(text, fmt, args)
         for a in addresses(t):
             w = lib.verif_watch(ctypes.c_void_p(a))
             if w < 0:
